@@ -27,6 +27,7 @@ UNITS = {
     'unitH': {'spec': 'unitH.vrs'},
     'unitK': {'spec': 'unitK.vrs'},
     'unitT': {'spec': 'unitT.vrs', 'expanded': True},
+    'unitL': {'kind': 'kani', 'leaves': ['L.parse.size_prefix_len']},
     'unitF': {'spec': 'unitF.vrs', 'expanded': True, 'threads': 8},
     'unitC': {'spec': 'unitC.vrs', 'expanded': True, 'threads': 16, 'timeout': 2400},
 }
@@ -139,13 +140,14 @@ PROPS = {
         ],
     },
     'C10': {
-        'units': ['unitH'],
-        'obligations': ['H.conv.', 'H.gen.'],
+        'units': ['unitH', 'unitL'],
+        'obligations': ['H.conv.', 'H.gen.', 'L.'],
         'assumptions': ['A-deps', 'A-std', 'A-arith', 'A-extract', 'A-verus'],
         'rules': 'R1 R2 R6 R10 (`slice.binary_search_by_key(&k, |i| i.0)` ==> bs_* stubs with the std contract on a sorted table; the `&dyn Fn` comparator selection ==> bs_range over the two comparator closures, which are verified separately); panic mode: absent',
         'claimed': [
             'CodeAddressGenerator::find_address (whole real function): an address that is the start of an input instruction is always classified as that instruction; one byte before an instruction as its edge; otherwise the function whose input range contains it under the requested end preference, with the offset from that function\'s start, or the function\'s end; otherwise Unknown -- never a different instruction or function',
             'the two range comparator closures (real): inclusive = (start, end], exclusive = [start, end)',
+            'Kani leaf (complete, full usize domain, unwinding assertions on): the statement of LocalFunction::parse that computes the length of a function\'s size prefix -- which places the start of its input range -- equals the LEB128 length of the body size for every size >= 1',
             'CodeAddressConverter::find_address (whole real function): an instruction address maps to the output offset recorded for exactly that instruction id, an in-function offset / function end to that function\'s emitted range; an instruction or function with no output entry yields None (tombstoned by the caller) -- never a neighbouring entry',
         ],
         'unclaimed': [
